@@ -38,15 +38,15 @@ type c14Event struct {
 }
 
 type c14Server struct {
-	mu       sync.Mutex
-	events   []c14Event
-	seq      atomic.Int64
-	inflight atomic.Int64
+	mu        sync.Mutex
+	events    []c14Event
+	seq       atomic.Int64
+	inflight  atomic.Int64
 	peak      atomic.Int64
 	cancelled atomic.Int64
-	delayMs  int
-	errEvery int // every n-th request of a key fails (0 = never)
-	counts   map[string]int
+	delayMs   int
+	errEvery  int // every n-th request of a key fails (0 = never)
+	counts    map[string]int
 }
 
 func (s *c14Server) log(kind, key string, ok bool) int64 {
